@@ -1,1 +1,1 @@
-import Depccg.Search
+import Depccg.Props.SearchBasics
